@@ -287,7 +287,7 @@ CLAIMED["C01"] = {
             "instruction after the loop; back edge -> first instruction of the test; break -> after the loop; continue -> back edge (while) / step "
             "code (from); && || `or` skip exactly the right operand); a from-loop parks counter and bound in two distinct registers, tests them with < "
             "(to) or <= (through), adds the step (default make_int 1) to the counter with += after the body and frees the registers unless the name "
-            "collides; `return v` is `<v> ret`; the handlers of if_stmt / while_loop jump on false and fall through on true, jmp / jmp_pop / done / "
+            "collides; `return v` is `<v> ret`; the k-th parameter is bound to the k-th argument (`arg k store <name k>`); the handlers of if_stmt / while_loop jump on false and fall through on true, jmp / jmp_pop / done / "
             "else_stmt / ret signal what the generators rely on, and Function::run applies them (jumps without the +1 step, return after dropping the "
             "block frames). Each is a necessary condition of C01: breaking it changes the output of some core program. Expression values, printed "
             "output and the failure report (C17) are not decided here.",
